@@ -356,6 +356,11 @@ func TestC31(t *testing.T) {
 		oldD := mkData(rs.Uint64()%1e6, sizes[int(rs.Uint64()%uint64(len(sizes)))], 2)
 		newD := mkData(rs.Uint64()%1e6+1e6, sizes[int(rs.Uint64()%uint64(len(sizes)))], 4)
 		oldBytes, newBytes := marshalled(t, oldD), marshalled(t, newD)
+		// the sessions a restarted client saves next (see goOn): one shorter
+		// than anything the interrupted save can have staged, one longer
+		nextSmall := mkData(rs.Uint64()%1e6+2e6, 0, 1)
+		nextBig := mkData(rs.Uint64()%1e6+3e6, 3000, 5)
+		goOnCount := 0
 		dir := filepath.Join(work, fmt.Sprintf("p%d", pi))
 		path := filepath.Join(dir, "session.json")
 		reset := func() {
@@ -372,7 +377,7 @@ func TestC31(t *testing.T) {
 		if err := os.WriteFile(spec, specB, 0o600); err != nil {
 			t.Fatal(err)
 		}
-		check := func(what string, nontrivial bool) {
+		check := func(what string, nontrivial bool) (usable bool) {
 			got, err := loadState(dir)
 			class := "old"
 			switch {
@@ -393,6 +398,35 @@ func TestC31(t *testing.T) {
 				class = "mixed"
 			}
 			st.Case(fmt.Sprintf("pair%d:%s", pi, what), nontrivial, fmt.Sprintf("pair %d (old %dB new %dB): %s -> %s", pi, len(oldBytes), len(newBytes), what, class), "state="+class)
+			return class == "old" || class == "new"
+		}
+		// goOn: the crash state is one the restarted client can go on from. It
+		// has loaded the session (check above); now it saves the next session,
+		// undisturbed, on a new FileStorage over the directory as the crash left
+		// it (leftover temporary files included), and that session must be what
+		// is stored afterwards.
+		goOn := func(what string) {
+			next := nextSmall
+			if goOnCount%3 == 2 {
+				next = nextBig
+			}
+			goOnCount++
+			l := session.Loader{Storage: &session.FileStorage{Path: path}}
+			if err := l.Save(context.Background(), next); err != nil {
+				fail("C31 violated: after %s the restarted client cannot save the next session: %v", what, err)
+				return
+			}
+			got, err := loadState(dir)
+			if err != nil || !reflect.DeepEqual(got, next) {
+				ents, _ := os.ReadDir(dir)
+				var names []string
+				for _, e := range ents {
+					info, _ := e.Info()
+					names = append(names, fmt.Sprintf("%s(%d)", e.Name(), info.Size()))
+				}
+				fail("C31 violated: after %s the restarted client saved the next session (%d bytes) without error, but what is stored then does not load as it: err=%v (directory now: %v)", what, len(marshalled(t, next)), err, names)
+			}
+			st.Class("continued-with-next-save")
 		}
 		// ---- reference run
 		reset()
@@ -433,7 +467,10 @@ func TestC31(t *testing.T) {
 			reset()
 			cmd := helperCmd(t, spec, "-o", os.DevNull, "-e", "trace="+op.name, "-e", fmt.Sprintf("inject=%s:signal=SIGKILL:when=%d", op.name, op.ordinal))
 			_ = cmd.Run() // the tracee is killed; strace exits non-zero
-			check(fmt.Sprintf("SIGKILL at entry of %s #%d (op %d/%d of the save)", op.name, op.ordinal, i+1, len(ops)), i > firstMut && i <= lastMut)
+			what := fmt.Sprintf("SIGKILL at entry of %s #%d (op %d/%d of the save)", op.name, op.ordinal, i+1, len(ops))
+			if check(what, i > firstMut && i <= lastMut) {
+				goOn(what)
+			}
 			st.Class("real-kill")
 		}
 		// ---- (1b) a storage that starts empty (every second pair): look for a
@@ -497,6 +534,9 @@ func TestC31(t *testing.T) {
 						class = "mixed"
 					}
 					st.Case(fmt.Sprintf("pair%d:%s", pi, what), i > marker, fmt.Sprintf("pair %d: %s -> %s", pi, what, class), "state="+class, "scenario=fresh-storage")
+					if class == "old" || class == "new" || class == "none" {
+						goOn(what)
+					}
 					st.Class("real-kill")
 				}
 			}
@@ -522,7 +562,10 @@ func TestC31(t *testing.T) {
 					what = fmt.Sprintf("process crash inside %s #%d after %d of %d bytes", ops[k].name, ops[k].ordinal, partial, ops[k].n)
 				}
 				materialize(t, m, dir, false, nil)
-				check("simulated "+what, k > firstMut && k <= lastMut)
+				if check("simulated "+what, k > firstMut && k <= lastMut) {
+					goOn("simulated " + what)
+					materialize(t, m, dir, false, nil)
+				}
 				st.Class("simulated-process-crash")
 				// power loss: unsynced tails of files are lost (to nothing, or to a prefix)
 				for _, keepMode := range []string{"none", "half"} {
@@ -541,7 +584,9 @@ func TestC31(t *testing.T) {
 						}
 						return f.synced + (len(f.data)-f.synced)/2
 					})
-					check(fmt.Sprintf("simulated power loss (%s of the unsynced data kept) %s", keepMode, strings.TrimPrefix(what, "process crash ")), true)
+					if w := fmt.Sprintf("simulated power loss (%s of the unsynced data kept) %s", keepMode, strings.TrimPrefix(what, "process crash ")); check(w, true) {
+						goOn(w)
+					}
 					st.Class("simulated-power-loss")
 				}
 			}
